@@ -195,7 +195,7 @@ pub fn shrink(check: &Check, scen: &Scen, seed: u64, params: &BTreeMap<String, u
 	let mut best = tape;
 	let budget_execs = 3000u64;
 	let budget_s = 45.0;
-	let mut test = |cand: &Vec<u32>, execs: &mut u64| -> Option<Vec<u32>> {
+	let test = |cand: &Vec<u32>, execs: &mut u64| -> Option<Vec<u32>> {
 		*execs += 1;
 		let out = run_scen(scen, seed, Some(cand.clone()), false, params, false);
 		if violations_of(check, &out).iter().any(|v| v.rule == target.rule && v.sig == target.sig) {
